@@ -5,8 +5,15 @@
 //! plemma: C18 lemma_recipient_metadata_round_trip / lemma_payer_metadata_round_trip: the metadata derive_metadata writes (nonce ‖ HMAC, preceded by the encrypted payment id for a payer) is accepted by verify_recipient_metadata / verify_payer_metadata_inner for the same key, IV and TLV records
 //! trusted: creating side: `tlv_stream: W` (a Writeable TLV stream written into the HMAC engine) is taken as TlvBytes, whose write feeds its bytes to the engine; that these bytes are the concatenation of the records the verifier iterates is assumed (definition of TlvStream); R5: `mut self` (unsupported by Verus) is taken as a by-value parameter bound to a mutable local, `self` renamed accordingly; R7: `opt.map(|id| id.to_vec()).unwrap_or_default()` is written as a match (std semantics; Verus gives closures no specification)
 //! trusted: R5: `tlv_stream: impl Iterator<Item = TlvRecord<'a>>` is taken as `&Vec<TlvRecord<'a>>` (the records in iteration order) and `for record in tlv_stream` iterates it (R6); R8: slice plumbing Verus has no specification for goes through external_body wrappers with the std meaning: `&metadata[N..]` -> tail_from, `Nonce::try_from(&metadata[..Nonce::LENGTH])?` -> nonce_prefix (the first 16 bytes), `x.copy_from_slice(&metadata[..PaymentId::LENGTH])` -> copy_prefix32; R1: the four `const X: &[u8; 16] = &[b; 16];` domain tags are declared `exec const` with their value as postcondition (Verus cannot evaluate an array-repeat expression in a dual-mode const); R2: `#[cfg(fuzzing)]` statements dropped, `cfg!(fuzzing)` is false
+//! trusted: assume_specification for core::cmp::max / core::cmp::min (std definitions): present in every unit so that a change that introduces them is verified instead of being rejected by the tool
 use vstd::prelude::*;
 verus! {
+use vstd::std_specs::cmp::*;
+use core::cmp;
+pub assume_specification<T: core::cmp::Ord>[core::cmp::max::<T>](a: T, b: T) -> (r: T)
+    ensures T::obeys_cmp_spec() ==> r == (if b.cmp_spec(&a) == core::cmp::Ordering::Less { a } else { b });
+pub assume_specification<T: core::cmp::Ord>[core::cmp::min::<T>](a: T, b: T) -> (r: T)
+    ensures T::obeys_cmp_spec() ==> r == (if b.cmp_spec(&a) == core::cmp::Ordering::Less { b } else { a });
 pub uninterp spec fn hmac_sha256(key: [u8; 32], data: Seq<u8>) -> [u8; 32];
 pub struct HmacEngine { pub key: Ghost<[u8; 32]>, pub data: Ghost<Seq<u8>> }
 impl HmacEngine {
